@@ -7,6 +7,7 @@ import json, os, shutil, subprocess, sys, tempfile
 VERIF = os.path.dirname(os.path.dirname(os.path.abspath(__file__)))
 ALL = ["C%02d" % i for i in range(1, 21)]
 TARGET = os.path.join(os.environ.get("TMPDIR", "/tmp"), "seed-verify-target")
+DEMO_ARGS = os.environ.get("SEED_DEMO_ARGS", "").split()   # e.g. --release, or --no-default-features --features eval_number
 
 
 def sh(cmd, cwd, env=None, timeout=1200):
@@ -20,7 +21,7 @@ def main():
     patch = os.path.join(out_dir, "patch.diff")
     demo = os.path.join(out_dir, "demo.rs")
     d = tempfile.mkdtemp(prefix="seedchk-")
-    env = dict(os.environ, CARGO_TARGET_DIR=TARGET, CARGO_NET_OFFLINE="true")
+    env = dict(os.environ, CARGO_TARGET_DIR=TARGET + "-" + seed_id, CARGO_NET_OFFLINE="true")
     rep = {"seed": seed_id, "property": prop}
     try:
         for x in ("src", "Cargo.toml", "Cargo.lock"):
@@ -31,7 +32,7 @@ def main():
                 shutil.copy(s, os.path.join(d, x))
         os.makedirs(os.path.join(d, "tests"))
         shutil.copy(demo, os.path.join(d, "tests", "demo.rs"))
-        rc, out = sh(["cargo", "test", "--offline", "--test", "demo"], d, env)
+        rc, out = sh(["cargo", "test", "--offline", "--test", "demo"] + DEMO_ARGS, d, env)
         rep["demo_unchanged"] = "pass" if rc == 0 else "FAIL"
         rc, out = sh(["patch", "-p1", "--no-backup-if-mismatch", "-i", patch], d)
         rep["patch_applies"] = rc == 0
@@ -39,7 +40,8 @@ def main():
             rep["patch_output"] = out[-400:]
         else:
             try:
-                rc, out = sh(["cargo", "test", "--offline", "--test", "demo"], d, env, timeout=300)
+                rc, out = sh(["cargo", "test", "--offline", "--test", "demo"] + DEMO_ARGS, d, env, timeout=300)
+                rep["demo_tail"] = out[-600:]
                 rep["demo_changed"] = "fail" if rc != 0 else "PASSES(unexpected)"
             except subprocess.TimeoutExpired:
                 rep["demo_changed"] = "fail (timeout)"
@@ -50,12 +52,16 @@ def main():
             os.remove(os.path.join(d, "tests", "demo.rs"))
             det = {}
             cenv = dict(os.environ, SC_REPO=d, SC_NO_STACK="1")
-            for pid in ALL:
+            def one(pid):
                 rc, out = sh([os.path.join(VERIF, "check"), pid], VERIF, cenv)
                 keys = [l.strip().split(" ", 1)[1] for l in out.splitlines() if l.strip().startswith("violation ")]
                 brk = [l.strip() for l in out.splitlines() if "CHECK-BROKEN" in l]
-                if rc != 0:
-                    det[pid] = keys[:5] or brk[:2]
+                return pid, rc, keys, brk
+            from concurrent.futures import ThreadPoolExecutor
+            with ThreadPoolExecutor(max_workers=int(os.environ.get("SEED_JOBS", "6"))) as ex:
+                for pid, rc, keys, brk in ex.map(one, ALL):
+                    if rc != 0:
+                        det[pid] = keys[:5] or brk[:2]
             rep["detected_by"] = det
         rep["confirmed"] = bool(rep.get("patch_applies") and rep.get("demo_unchanged") == "pass" and str(rep.get("demo_changed", "")).startswith("fail") and rep.get("suite_ok"))
         print(json.dumps(rep, indent=1, ensure_ascii=False))
@@ -73,6 +79,7 @@ def main():
             json.dump(meta, open(os.path.join(sd, "meta.json"), "w"), indent=1, ensure_ascii=False)
     finally:
         shutil.rmtree(d, ignore_errors=True)
+        shutil.rmtree(TARGET + "-" + seed_id, ignore_errors=True)
 
 
 if __name__ == "__main__":
